@@ -365,15 +365,12 @@ def fixed_lostLastAck : List Op :=
     .deliver 13, .egress, .egress, .egress, .egress, .egress, .egress, .egress, .egress, .egress,
     .egress, .read 1 8]
 
-/-- The code as committed in /repo after all repairs of this area (eight flags; `fixOrphanTimeout`
-    was not adopted by the integrator and stays off). -/
-def cfgCommitted : Cfg :=
-  { fixReack := true, fixWinUpdate := true, fixHsReset := true, fixRstAfterClose := true, fixReapOrphan := true,
-    fixQuietClose := true, fixSynWindow := true, fixSndMax := true }
+/-- The code as committed in /repo after all repairs of this area (`Cfg.committed`: nine flags;
+    the general `fixOrphanTimeout` was not adopted by the integrator and stays off). -/
+def cfgCommitted : Cfg := Cfg.committed
 
-/-- The tree before the SND.MAX repair of F-C06-8 (seven repairs: 080947f, 018714e, 2fda244, d10c607,
-    b0e0c79, 91a643a, a7d7737). -/
-def cfgCommitted7 : Cfg := { cfgCommitted with fixSndMax := false }
+/-- The tree before the SND.MAX repair of F-C06-8 (`Cfg.committed7`: seven repairs). -/
+def cfgCommitted7 : Cfg := Cfg.committed7
 
 /-- The code with the five repairs that have been committed to /repo (080947f, 018714e, 2fda244,
     d10c607, b0e0c79). -/
